@@ -28,9 +28,9 @@ def check(run):
     run.regenerate()
     run.lean_props(common.modules_for("C18"))
     from .. import glue_grid
-    glue_grid.corr_copy(run, quick)   # Lean model of the copy/pickle hooks vs the real Grid class
+    run.attempt("corr:glue_grid.corr_copy", glue_grid.corr_copy, run, quick)   # Lean model of the copy/pickle hooks vs the real Grid class
     from .. import glue_modes
-    glue_modes.corr(run, quick)   # ... and of Modes (copy/pickle stratum included)
+    run.attempt("corr:glue_modes.corr", glue_modes.corr, run, quick)   # ... and of Modes (copy/pickle stratum included)
     rng = run.rng
     objs = []
     for s in range(-3, 4):
